@@ -348,6 +348,11 @@ func (c *clientHello) parseExtensions() error {
 			//                   Empty;
 			//           };
 			//        } ECHClientHello;
+			// RFC 8446, Section 4.2: There MUST NOT be more than one
+			// extension of the same type. marshalAAD relies on it.
+			if c.echExt != nil {
+				return fmt.Errorf("%w: duplicate encrypted_client_hello", ErrIllegalParameter)
+			}
 			c.echExt = &echExt{}
 
 			if !data.ReadUint8(&c.echExt.Type) { // type
